@@ -42,9 +42,15 @@ def run(ck):
             if t and t.get("k") == "if":
                 refs = [strip_tmpl(r) for r in (t.get("refs") or [])]
                 if any(r.endswith("ArrayStreamBuf::bytes") for r in refs) and any(r.endswith("ArrayStreamBuf::maxSize") for r in refs) and ("v:" + f.params[1]["name"]) in refs:
-                    tests.append(b)
+                    # the amount already held is bytes.size() — the number of bytes fed so far — not its capacity or anything else
+                    calls = {r[2:] for r in refs if r.startswith("c:")}
+                    if calls == {"std::vector::size"}:
+                        tests.append(b)
+                    else:
+                        odd = sorted(calls - {"std::vector::size"})
+                        ck.note("feed: candidate limit test `%s` measures the buffer with %s" % (t.get("cond"), odd))
         ok = False
-        detail = "no bail-out mentioning bytes.size(), len and maxSize"
+        detail = "no bail-out comparing bytes.size() + len with maxSize (see notes: the limit test must measure the bytes fed so far)"
         for b in tests:
             # which arm refuses?  the one that returns false without growth
             for k in (0, 1):
